@@ -153,8 +153,8 @@ func normalise(repo string, pkgs []*packages.Package) (*normResult, []*packages.
 		if len(cands) == 0 {
 			break
 		}
-		// per file: the last call that does not contain another candidate (innermost, bottom-most)
-		byFile := map[*ast.File]cand{}
+		// innermost candidates per file, bottom-most first
+		perFile := map[*ast.File][]cand{}
 		for _, c := range cands {
 			inner := true
 			for _, d := range cands {
@@ -162,72 +162,104 @@ func normalise(repo string, pkgs []*packages.Package) (*normResult, []*packages.
 					inner = false
 				}
 			}
-			if !inner {
-				continue
-			}
-			if cur, ok := byFile[c.file]; !ok || c.call.Pos() > cur.call.Pos() {
-				byFile[c.file] = c
+			if inner {
+				perFile[c.file] = append(perFile[c.file], c)
 			}
 		}
-		progressed := false
 		var files []*ast.File
-		for f := range byFile {
+		for f := range perFile {
 			files = append(files, f)
+			cs := perFile[f]
+			sort.Slice(cs, func(i, j int) bool { return cs[i].call.Pos() > cs[j].call.Pos() })
 		}
 		sort.Slice(files, func(i, j int) bool { return files[i].Pos() < files[j].Pos() })
-		for _, f := range files {
-			c := byFile[f]
+		progressed := false
+		// attempt one candidate; literal=false refuses the function-literal fallback
+		attempt := func(c cand, literal bool) (bool, error) {
+			f := c.file
 			fset := c.pkg.Fset
 			name := fset.Position(f.Pos()).Filename
 			content, err := fileContent(res.Overlay, name)
 			if err != nil {
-				return nil, nil, err
+				return false, err
 			}
 			hname := fset.Position(c.h.file.Pos()).Filename
 			hcontent, err := fileContent(res.Overlay, hname)
 			if err != nil {
-				return nil, nil, err
+				return false, err
 			}
 			callee, err := inline.AnalyzeCallee(func(string, ...any) {}, c.h.pkg.Fset, c.h.pkg.Types, c.h.pkg.TypesInfo, c.h.decl, hcontent)
 			if err != nil {
 				skip[c.h.fn.FullName()] = true
 				res.Log = append(res.Log, fmt.Sprintf("not inlined: %s (%v)", c.h.fn.FullName(), err))
-				progressed = true
-				continue
+				return true, nil
 			}
 			caller := &inline.Caller{Fset: fset, Types: c.pkg.Types, Info: c.pkg.TypesInfo, File: f, Call: c.call}
 			r, err := inline.Inline(caller, callee, &inline.Options{Logf: func(string, ...any) {}, Recover: true})
 			if err != nil {
 				skip[c.h.fn.FullName()] = true
 				res.Log = append(res.Log, fmt.Sprintf("not inlined: %s at %s (%v)", c.h.fn.FullName(), fset.Position(c.call.Pos()), err))
-				progressed = true
-				continue
+				return true, nil
+			}
+			if r.Literalized && !isGoOrDefer(f, c.call) {
+				out, err2 := stmtInline(c.pkg, f, c.call, content, c.h.pkg, c.h.decl, hcontent)
+				if err2 == nil {
+					res.Overlay[name] = out
+					res.Log = append(res.Log, fmt.Sprintf("inlined %s into %s (statement-level)", c.h.fn.FullName(), fset.Position(c.call.Pos())))
+					return true, nil
+				}
+				out, err3 := hoistCall(c.pkg, f, c.call, content)
+				if err3 == nil {
+					res.Overlay[name] = out
+					res.Log = append(res.Log, fmt.Sprintf("hoisted the call of %s at %s into its own statement", c.h.fn.FullName(), fset.Position(c.call.Pos())))
+					return true, nil
+				}
+				if !literal {
+					return false, nil
+				}
+				res.Log = append(res.Log, fmt.Sprintf("statement-level inlining of %s declined: %v; hoisting declined: %v", c.h.fn.FullName(), err2, err3))
 			}
 			tf := fset.File(f.Pos())
-			type ed struct {
-				s, e int
-				t    []byte
-			}
-			var eds []ed
+			var eds []textEdit
 			for _, e := range r.Edits {
 				end := e.End
 				if !end.IsValid() {
 					end = e.Pos
 				}
-				eds = append(eds, ed{tf.Offset(e.Pos), tf.Offset(end), e.NewText})
+				eds = append(eds, textEdit{tf.Offset(e.Pos), tf.Offset(end), string(e.NewText)})
 			}
-			sort.Slice(eds, func(i, j int) bool { return eds[i].s > eds[j].s })
-			out := append([]byte(nil), content...)
-			for _, e := range eds {
-				out = append(out[:e.s], append(append([]byte(nil), e.t...), out[e.e:]...)...)
-			}
-			res.Overlay[name] = out
+			res.Overlay[name] = applyTextEdits(content, eds)
 			how := "reduced"
 			if r.Literalized {
 				how = "as a function literal"
 			}
 			res.Log = append(res.Log, fmt.Sprintf("inlined %s into %s (%s)", c.h.fn.FullName(), fset.Position(c.call.Pos()), how))
-			progressed = true
+			return true, nil
+		}
+		// phase 1: per file, the first candidate that can be handled without a function literal
+		for _, f := range files {
+			for _, c := range perFile[f] {
+				ok, err := attempt(c, false)
+				if err != nil {
+					return nil, nil, err
+				}
+				if ok {
+					progressed = true
+					break
+				}
+			}
+		}
+		// phase 2: nothing else moves: fall back to a function literal for one call per file
+		if !progressed {
+			for _, f := range files {
+				ok, err := attempt(perFile[f][0], true)
+				if err != nil {
+					return nil, nil, err
+				}
+				if ok {
+					progressed = true
+				}
+			}
 		}
 		if !progressed {
 			break
@@ -263,3 +295,16 @@ func fileContent(overlay map[string][]byte, name string) ([]byte, error) {
 }
 
 var _ = token.NoPos
+
+// isGoOrDefer: the call is the operand of a go or defer statement (a function literal is then the
+// natural inlined form).
+func isGoOrDefer(f *ast.File, call *ast.CallExpr) bool {
+	p := enclosingPath(f, call)
+	if len(p) >= 2 {
+		switch p[1].(type) {
+		case *ast.GoStmt, *ast.DeferStmt:
+			return true
+		}
+	}
+	return false
+}
